@@ -13,7 +13,8 @@ for name in sorted(os.listdir(os.path.join(V, "seeded"))):
     meta = {
         "seed": name,
         "property_broken": name[:3],
-        "round": 1 if name[3] in "ab" else 2,
+        "round": 1 if name[3] in "ab" else (2 if name[3] in "cd" else 3),
+        "superseded": (open(os.path.join(d, "SUPERSEDED.md"), encoding="utf-8").read() if os.path.isfile(os.path.join(d, "SUPERSEDED.md")) else None),
         "files_changed": files,
         "what_it_needs_to_manifest": " ".join(note.split())[:900],
         "confirmed_by_me": {
